@@ -412,9 +412,12 @@ coalesceLoop:
 	for {
 		select {
 		case it2 := <-db.requestedIterations:
-			if it2.t == it.t {
+			if it2.t == it.t && it2.includeMemStore == it.includeMemStore {
 				iterations = append(iterations, it2)
 			} else {
+				// Iterations that disagree on whether to include the memstore can't
+				// share a scan, otherwise those that only want what has been
+				// flushed would get the memstore's data too.
 				iterationsForOtherTables = append(iterationsForOtherTables, it2)
 			}
 		case <-time.After(db.opts.IterationCoalesceInterval):
@@ -423,8 +426,8 @@ coalesceLoop:
 		}
 	}
 
-	// re-enqueue iterations for other tables since we won't be handling them
-	// here
+	// re-enqueue iterations for other tables (or for a different view of this
+	// table) since we won't be handling them here
 	for _, otherIt := range iterationsForOtherTables {
 		db.requestedIterations <- otherIt
 	}
